@@ -52,20 +52,37 @@ Section Dry.
   Lemma d_replace s ids : dstep s (fst (replace sc s ids)).
   Proof. unfold replace. cbv zeta. rewrite Hdry. cbn [fst]. base. Qed.
 
+  Lemma d_ssa_patch s l n : o_dry (sc_opts sc) = DServer -> dstep s (fst (ssa_patch sc s l n)).
+  Proof.
+    intros D. unfold ssa_patch. cbv zeta. rewrite D.
+    assert (MC : dstep s (maybe_cancel sc s (l_id l))) by base.
+    destruct (faulted sc (FStream (l_id l) n)); cbn [fst].
+    { tr; [exact MC|]. apply (step_log_req_same Qd eq d_refl). cbn. split; [exact D|eauto]. }
+    destruct (faulted sc (FApply (l_id l))); cbn [fst].
+    + tr; [exact MC|]. apply (step_log_req_same Qd eq d_refl). cbn. split; [exact D|eauto].
+    + destruct (find_obj _ _); cbn [fst];
+        (tr; [exact MC|]; apply (step_log_req_same Qd eq d_refl); cbn; split; [exact D|eauto]).
+  Qed.
+
+  Lemma d_csa_apply s l : dstep s (fst (csa_apply sc s l)).
+  Proof.
+    unfold csa_apply. cbv zeta. rewrite Hdry.
+    pose proof (step_get_obj sc Qd eq d_refl s (l_id l)) as G.
+    destruct (get_obj sc s (l_id l)) as [s1 g]. cbn [fst] in G.
+    destruct g; cbn [fst]; try exact G.
+    destruct (negb (patch_needed c l)); cbn [fst]; exact G.
+  Qed.
+
+  (* under server dry-run the APIService fallback is a second dry-run apply PATCH; under client
+     dry-run kubectl never takes the server-side branch, so there is no fallback *)
   Lemma d_kubectl_apply s l : dstep s (fst (kubectl_apply sc s l)).
   Proof.
-    unfold kubectl_apply. cbv zeta. rewrite Hdry.
-    destruct (ssa_mode sc) eqn:M.
-    - pose proof (ssa_mode_dry M) as D. rewrite D.
-      assert (MC : dstep s (maybe_cancel sc s (l_id l))) by base.
-      destruct (faulted sc (FApply (l_id l))); cbn [fst].
-      + tr; [exact MC|]. apply (step_log_req_same Qd eq d_refl). cbn. split; [exact D|eauto].
-      + destruct (find_obj _ _); cbn [fst];
-          (tr; [exact MC|]; apply (step_log_req_same Qd eq d_refl); cbn; split; [exact D|eauto]).
-    - pose proof (step_get_obj sc Qd eq d_refl s (l_id l)) as G.
-      destruct (get_obj sc s (l_id l)) as [s1 g]. cbn [fst] in G.
-      destruct g; cbn [fst]; try exact G.
-      destruct (negb (patch_needed c l)); cbn [fst]; exact G.
+    destruct (kubectl_apply_cases sc l s) as [[_ ->]|[[M [-> _]]|[M [_ [_ [_ ->]]]]]].
+    - apply d_csa_apply.
+    - cbn [fst]. apply d_ssa_patch, ssa_mode_dry, M.
+    - pose proof (ssa_mode_dry M) as D. tr; [apply (d_ssa_patch s l 0 D)|].
+      destruct (apisvc_fallback_cases sc l (fst (ssa_patch sc s l 0))) as [[_ ->]|[N _]];
+        [cbn [fst]; apply d_ssa_patch, D|contradiction].
   Qed.
 
   Lemma d_apply_one pl g s p : dstep s (apply_one sc pl g s p).
